@@ -47,6 +47,7 @@ def gen_case(rng, tier):
     prof["llvm_call"] = False
     prof["index_vals"] = rng.choice([0, 0, 0.2])
     prof["relaunch"] = rng.choice([0, 0, 0.25])  # the same configuration launched again, also nested in a region without a setup
+    prof["partial"] = rng.choice([0, 0, 0.4])  # setups that only write some of the fields
     prof["state_loops"] = rng.choice([0, 0, 0.5])  # hand-threaded loops that carry the state, some launching the entry state first
     prof["head_launch"] = rng.choice([0, 0.5])
     prof["prethread"] = rng.choice([0, 0, 0.5])  # hand-threaded input: setups that continue the previous setup of their block
@@ -90,6 +91,10 @@ def materialise(case):
         prof = dict(case["prof"])
         prof["n_fields"] = [len(fields), 0]
         prof["n_launch"] = [len(lfields)]
+        if rocc and case["stage"] == 0:
+            # without state tracing in front of it the RoCC lowering cannot know the partner of a field that is written alone
+            # (it takes 0, as for a first setup): half-written instruction pairs only in traced programs
+            prof["partial"] = 0
         prof["launch_pool"] = ["%one", "%k0", "%k1"] if case["cfg"]["kind"].startswith("synth") else ["%one", "%zero", "%k0", "%k1"] if rocc else (["%zero"] if case["cfg"]["kind"] == "hwpe_mult" else ["%one", "%one", "%k0"])
         case["ast"] = G.AccfgGen(random.Random(case["gseed"]), prof).program()
         if case["cfg"]["kind"] == "gemmx" and case.get("per_channel"):
@@ -208,6 +213,10 @@ def execute(case):
         out["status"] = "rejected"
         out["rejected"] = "workload:per-channel-launch-without-its-setup"
         return out
+    if rocc and case["stage"] == 0 and any(st.get("omit") for st in G._walk_stmts(case["ast"]["body"])):
+        out["status"] = "rejected"
+        out["rejected"] = "workload:half-written-rocc-pair-without-state-tracing"
+        return out
     src = program_text(case, acc, acc_op, fields, lfields, rocc)
     stage = STAGES[case["stage"]]
     try:
@@ -296,7 +305,29 @@ def _kf_c04_1(case, outcome):
     return bool(outcome.get("oracle") == "launch-writes-tracked-fields" and case.get("ast") and has_per_channel(case["ast"]["body"]))
 
 
-TRIGGERS = {"per_channel_launch_writes_tracked_fields": _kf_c04_1}
+def _kf_c04_2(case, outcome):
+    """RoCC: the instruction carries 0 for the half of a pair that a setup without a known incoming state leaves alone"""
+    import re
+
+    if case["cfg"]["kind"] != "gemmini" or outcome.get("oracle") != "csr-history" or not case.get("ast"):
+        return False
+    m = re.search(r"the value in effect for (\S+)\.rs([12]) is 0, the configured value is", outcome.get("message") or "")
+    if not m:
+        return False
+    try:
+        _, _, fields, _, _, _ = materialise(case)
+    except Exception:
+        return False
+    names = list(fields)
+    half, other = f"{m.group(1)}.rs{m.group(2)}", f"{m.group(1)}.rs{3 - int(m.group(2))}"
+    if half not in names or other not in names:
+        return False
+    hi, oi = names.index(half), names.index(other)
+    # some setup writes the partner but not this half
+    return any(st["k"] == "sl" and hi in st.get("omit", ()) and oi not in st.get("omit", ()) for st in G._walk_stmts(case["ast"]["body"]))
+
+
+TRIGGERS = {"per_channel_launch_writes_tracked_fields": _kf_c04_1, "rocc_half_pair_without_known_state_gets_zero": _kf_c04_2}
 
 
 def shrink(case):
